@@ -2209,7 +2209,10 @@ impl<'a> Socket<'a> {
             tcp_trace!("starting zero-window-probe timer for t+{}", delay);
             self.timer.set_for_zero_window_probe(cx.now(), delay);
         }
-        if self.remote_win_len != 0 && self.timer.is_zero_window_probe() {
+        // The probe timer only has a purpose while the window is closed and data is waiting for it.
+        if (self.remote_win_len != 0 || self.tx_buffer.is_empty())
+            && self.timer.is_zero_window_probe()
+        {
             tcp_trace!("stopping zero-window-probe timer");
             self.timer.set_for_idle(cx.now(), self.keep_alive);
             if self.remote_last_seq != self.local_seq_no {
